@@ -24,6 +24,45 @@ def validate(trace):
     return per, events
 
 
+def validate_cols(trace):
+    """column-level scenarios (plancat -colmod) against ColCatalogTrace.tla; a clause the tokeniser cannot interpret is not a verdict"""
+    viols, events, states = vf.monitor_trace("ColCatalogTrace", "ColCatalogTrace.cfg", trace, max_events=20000, heap="1500m")
+    per = {}
+    for cid, name, lno in viols:
+        per.setdefault(cid, []).append(name)
+    unk = [cid for cid, names in per.items() if "UninterpretedClause" in names]
+    if unk:
+        raise vf.Infra("plancat -colmod: %d scenarios contain a clause the tokeniser does not interpret (first: scenario %d)" % (len(unk), unk[0]))
+    return per, events
+
+
+def colmod(v, want_dir, part):
+    """run the column-level scenarios and report those of direction want_dir (colmod-up: C01, colmod-updown: C17) to the verdict"""
+    mc = {}
+    for cfg in ("ColCatalog.pg.cfg", "ColCatalog.my.cfg"):
+        r = vf.tlc("ColCatalog", cfg, workers=4, heap="2g", timeout=600)
+        if not r.ok:
+            raise vf.Infra("ColCatalog.tla violates its own obligations under %s: %s" % (cfg, r.violated))
+        mc[cfg] = r.distinct
+    d, trace, cases, _ = record(["-colmod"])
+    try:
+        per, events = validate_cols(trace)
+        byid = {c["id"]: c for c in cases}
+        mine = [c for c in cases if c["dir"] == want_dir]
+        bad = 0
+        for cid, names in sorted(per.items()):
+            c = byid[cid]
+            if c["dir"] != want_dir:
+                continue
+            bad += 1
+            v.violation({"part": part, "dialect": c["dialect"], "dir": c["dir"], "scenario": c["roles"], "first_violation": names[0]},
+                        {"violated": names, "planner_error": c.get("err"), "statements": c.get("stmts")})
+        planned = sum(1 for c in mine if not c.get("err"))
+        return {"scenarios": len(mine), "planned": planned, "bad": bad, "events": events, "model_states": mc}
+    finally:
+        vf.rm(d)
+
+
 def shape(c):
     """signature fields of a scenario"""
     g = [tuple(e) for e in c.get("graph") or []]
